@@ -75,6 +75,8 @@ package domutil
 // the root) carries only allow-listed keys, none of them id/class/style or another presentational attribute.
 //@ func StripAttributes(node)
 //@   requires node != nil
+//@   ghostset inert(node) = 1
+//@   ensures [C05] #marks-stripped inert(node) == 1
 //@   assigns html.Node.Attr
 //@   fresh_assigns elems(attr), elems(ref), html.Attribute.*
 //@   ensures [C05] #root-inert attrsInert(node)
@@ -87,3 +89,20 @@ package domutil
 //@   loop 0 invariant forall(k, 0 <= k && k < ITER, attrsInert(elements[k]))
 //@   loop 1 invariant freshslice(finalAttrs) && forall(j, 0 <= j && j < len(finalAttrs), inertKey(finalAttrs[j].Key))
 //@   loop 1 invariant elem != nil && forall(k, 0 <= k && k < ITER_OUTER, attrsInert(elements[k]))
+
+// C05: every clone handed out by CloneAndProcessList / CloneAndProcessTree has been stripped.
+//@ func CloneAndProcessList(outputNodes, pageURL)
+//@   requires forall(i, 0 <= i && i < len(outputNodes), outputNodes[i] != nil)
+//@   ensures [C05] #clone-is-stripped result == nil || inert(result) == 1
+
+//@ func CloneAndProcessTree(root, pageURL)
+//@   requires root != nil
+//@   ensures [C05] #clone-is-stripped result == nil || inert(result) == 1
+
+// GetOutputNodes: trusted summary (the walk is closure based; the visitor GetOutputNodes$1 is verified): only
+// visited, hence non-nil, nodes are collected.
+//@ func GetOutputNodes(root)
+//@   trusted
+//@   requires root != nil
+//@   fresh_assigns elems(ref), cell(Slice), cell(Ref)
+//@   ensures freshslice(result) && forall(i, 0 <= i && i < len(result), result[i] != nil)
